@@ -104,7 +104,7 @@ class ExecModels(Models):
             cfg = field_of(tc, "config")
             started = read_clock(c, "stub")
             ended = read_clock(c, "stub")
-            runs.append({"timeout": deep_clone(field_of(cfg, "timeout")), "env": deep_clone(field_of(cfg, "environment")),
+            runs.append({"timeout": deep_clone(field_of(cfg, "timeout")), "env": deep_clone(field_of(cfg, "environment")), "cfg": deep_clone(cfg),
                          "name": "".join(chr(ch.v) for ch in as_str(a[1]).chars), "started": started, "ended": ended})
             script = c.notes["script"]
             if i >= len(script):
